@@ -60,6 +60,13 @@ Definition resolves_check : bool :=
     forallb (fun v => forallb (fun r => match select_size_table t v r with Some _ => true | None => false end)
                               (latest :: rev_keys t)) (latest :: skeys (t_maxpl t))) band_configs.
 
+(* the keys of the two map levels are what they claim to be: protocol versions (or "latest") at
+   the first level, regional-parameters revisions (or "latest") at the second *)
+Definition version_keys_check : bool :=
+  forallb (fun c =>
+    forallb (fun v => str_mem v (latest :: protocol_versions)) (skeys (t_maxpl (c_tab c)))
+    && forallb (fun r => str_mem r (latest :: reg_param_revisions)) (rev_keys (c_tab c))) band_configs.
+
 Definition rep_le_check (tr tn : tables) (v r : string) : bool :=
   match select_size_table tr v r with
   | None => true
@@ -77,9 +84,7 @@ Definition pair_KR (tr tn : tables) : list string := rev_keys tr ++ rev_keys tn.
 Definition pair_check (cr cn : band_cfg) : bool :=
   let tr := c_tab cr in
   let tn := c_tab cn in
-  forallb (fun v =>
-    if version_query_sane v then forallb (fun r => rep_le_check tr tn v r) (latest :: pair_KR tr tn)
-    else true) (latest :: pair_KV tr tn).
+  forallb (fun v => forallb (fun r => rep_le_check tr tn v r) (latest :: pair_KR tr tn)) (latest :: pair_KV tr tn).
 
 Definition is_rep_pair (cr cn : band_cfg) : bool :=
   String.eqb (c_name cr) (c_name cn) && Bool.eqb (c_dwell cr) (c_dwell cn) && c_rep cr && negb (c_rep cn).
